@@ -35,6 +35,9 @@ CONSTANTS Pilots,            \* set of pilot names (strings)
           NRpc,              \* number of RPC requests (each takes two ids: request + result)
           DevResultCopiesFwd,\* the RPC result is published with the flag the request
                              \* arrived with (cleared after one hop) instead of fwd = true
+          NAdv,              \* number of state bulks published through AgentComponent.advance
+          DevBulkHeadDecides,\* advance(fwd=True) drops the flag for the whole bulk when
+                             \* its first task was created inside the pilot
           DevKeepFwd,        \* L2P does not clear the fwd flag
           DevL2PAnyOrigin,   \* L2P forwards messages stamped by others
           DevL2PIgnoreFwd,   \* L2P forwards unflagged messages
@@ -54,7 +57,9 @@ ASSUME EagerApp => NRpc = 0
 \* are model values (never used together with liveness checking)
 PilotPerms == Permutations(Pilots)
 
-\* rpc[i] (ghost): "req" - i is an RPC request addressed to side peer, served n
+\* rpc[i] (ghost): "adv" - i is a state bulk published by an agent component with
+\* advance(fwd=True); peer = client iff the bulk holds a task of the client;
+\* "req" - i is an RPC request addressed to side peer, served n
 \* times; "res" - i is the result of request re, due back at side peer
 VARIABLES next, pub, qloc, qpx, got, rpc
 vars == <<next, pub, qloc, qpx, got, rpc>>
@@ -79,6 +84,28 @@ Publish(s, o, f) ==
   /\ pub'  = [pub EXCEPT ![next] = [side |-> s, origin |-> o, fwd |-> f]]
   /\ next' = next + 1
   /\ UNCHANGED <<qpx, rpc>>
+
+(* ---- an agent component publishes the state update of a bulk of tasks with  *)
+(* ---- advance(things, state, publish=True, fwd=True); b = where the tasks    *)
+(* ---- come from, in bulk order ("client" / "pilot": raptor, agent services) *)
+Bulks == {<<x>> : x \in {"client", "pilot"}} \cup {<<x, y>> : x \in {"client", "pilot"}, y \in {"client", "pilot"}}
+\* whether the update of a bulk without any task of the client travels is the
+\* pilot's own business: fp, the flag such a bulk goes out with, is arbitrary
+HasClient(b) == \E k \in 1 .. Len(b) : b[k] = "client"
+Advance(s, b, fp) ==
+  /\ Cardinality({i \in Ids : rpc[i].kind = "adv"}) < NAdv
+  /\ next + Unserved <= NMsgs
+  /\ HasClient(b) => fp = "true"
+  /\ LET f == IF DevBulkHeadDecides /\ b[1] = "pilot" THEN "false" ELSE fp
+         m == [id |-> next, origin |-> Absent, fwd |-> f, hops |-> 0] IN
+     /\ qloc' = IF EagerApp THEN [qloc EXCEPT ![s]["AL"] = Append(@, m)]
+                            ELSE [qloc EXCEPT ![s]["AA"] = Append(@, m), ![s]["AL"] = Append(@, m)]
+     /\ pub'  = [pub EXCEPT ![next] = [side |-> s, origin |-> Absent, fwd |-> f]]
+  /\ got'  = IF EagerApp THEN [got EXCEPT ![s][next] = @ + 1] ELSE got
+  /\ rpc'  = [rpc EXCEPT ![next] = [kind |-> "adv", re |-> 0, n |-> 0,
+                                    peer |-> IF HasClient(b) THEN Client ELSE "none"]]
+  /\ next' = next + 1
+  /\ UNCHANGED qpx
 
 (* ---- a component of side a sends an RPC request addressed to side b: an ---- *)
 (* ---- RPCRequestMessage, fwd = true by class default, no origin         ---- *)
@@ -142,6 +169,7 @@ Deliver ==
 Next ==
   \/ \E s \in Sides, o \in Origins, f \in FwdChoice : Publish(s, o, f)
   \/ \E a \in Sides, b \in Sides : PublishReq(a, b)
+  \/ \E s \in Pilots, b \in Bulks, fp \in {"true", "false"} : Advance(s, b, fp)
   \/ Deliver
 
 Fairness ==
@@ -167,8 +195,8 @@ TypeOK ==
   /\ \A m \in InFlight : m.id \in Published /\ m.origin \in Origins /\ m.fwd \in FwdVals
                          /\ m.hops \in Nat
   /\ \A s \in Sides, i \in Ids : got[s][i] \in Nat
-  /\ \A i \in Ids : rpc[i] = NoRpc \/ (i \in Published /\ rpc[i].kind \in {"req", "res"}
-                                       /\ rpc[i].peer \in Sides /\ rpc[i].n \in Nat)
+  /\ \A i \in Ids : rpc[i] = NoRpc \/ (i \in Published /\ rpc[i].kind \in {"req", "res", "adv"}
+                                       /\ rpc[i].peer \in Sides \cup {"none"} /\ rpc[i].n \in Nat)
 
 \* always got <= 1: nothing twice, in particular not a second time on the
 \* side a message came from
@@ -190,6 +218,11 @@ InvRpcReturns == \A i \in Published :
 \* and the addressed side serves a request exactly once
 InvRpcServedOnce == \A i \in Published :
                     rpc[i].kind = "req" => rpc[i].n <= 1 /\ (Settled(i) => rpc[i].n = 1)
+
+\* the state update of a task of the client, published on a pilot with the forward
+\* flag, reaches the client exactly once whatever else is in the bulk
+InvClientUpdate == \A i \in Published :
+                    rpc[i].kind = "adv" /\ rpc[i].peer = Client /\ Settled(i) => got[Client][i] = 1
 
 \* no circulation: an instance passes at most two forwarders
 InvHops == \A m \in InFlight : m.hops <= MaxHops
